@@ -270,7 +270,7 @@ func runC18(c *fw.Ctx) {
 		for qi, q := range []string{word, "\"" + word + "\""} {
 			nodes := []*doc.Node{doc.Jsight(),
 				doc.N("INFO").WithKids(doc.N("Title", q), doc.N("Version", q)),
-				doc.N("SERVER", "@s").WithAnn(word+" server").WithKids(doc.N("BaseUrl", q)),
+				doc.N("SERVER", "@s").WithAnn(word + " server").WithKids(doc.N("BaseUrl", q)),
 				doc.N("TYPE", "@w").WithBody("{\n  \"" + word + "\": \"" + word + "\" // " + word + "\n}"),
 				doc.N("URL", "/r").WithParen().WithKids(doc.N("Protocol", "json-rpc-2.0"), doc.N("Method", q).WithAnn(word)),
 				doc.N("GET", "/w").WithKids(doc.N("Query", q).WithBody("{}"), doc.N("200", "any")),
